@@ -26,7 +26,7 @@ ASSUMPTIONS = [
     "write side: no finite sample prints as a token numerically equal to NULL",
 ]
 REQUIRED = ["read_cases", "cells_compared", "null_equal_cells_in_index", "near_null_cells", "null_equal_cells_other_spelling",
-            "policy_none_cases", "text_column_cases", "write_nan_tokens_checked", "roundtrip_masks_compared", "wrapped_cases", "read_cases_with_surplus_columns", "second_writes_after_in_place_edits"]
+            "policy_none_cases", "text_column_cases", "write_nan_tokens_checked", "roundtrip_masks_compared", "wrapped_cases", "read_cases_with_surplus_columns", "second_writes_after_in_place_edits", "writes_with_a_text_curve_present"]
 SOFT_DEADLINE = {"quick": 90, "thorough": 1200}
 LEVEL_TEXT = "Exploration with a cell-level 'if and only if' model of the NaN mask on both directions (read, write->read)."
 LEVEL_NOTE = "Trusts Python float() as the numeric-equality reference for spellings; NULL texts outside the listed set are not covered."
@@ -225,6 +225,8 @@ def written_ok(ctx, case, las, data, nv, kw, tag):
     if len(toks) == r * c:
         for i in range(r):
             for j in range(c):
+                if data[j] is None:
+                    continue
                 if math.isnan(data[j][i]):
                     ctx.count("write_nan_tokens_checked")
                     if toks[i * c + j] != str(nv):
@@ -243,6 +245,8 @@ def written_ok(ctx, case, las, data, nv, kw, tag):
     if case["wrap"]:
         ctx.count("wrapped_cases")
     for j in range(c):
+        if data[j] is None:
+            continue
         got = np.isnan(np.asarray([c for c in list.__iter__(back.curves)][j].data, dtype=float))
         want = np.isnan(np.array(data[j]))
         if not np.array_equal(got, want):
@@ -276,6 +280,12 @@ def run_write(case, ctx):
     kw = {"wrap": case["wrap"], "fmt": fmt}
     if case.get("version"):
         kw["version"] = case["version"]
+    if case["seed"] % 5 == 1 and not case["wrap"]:
+        # a text curve next to the float curves: the NaN of the float curves are still written as NULL
+        las.append_curve("LITH", np.array(["L%d" % i for i in range(r)]), descr="text curve")
+        data.append(None)
+        case = dict(case, cols=c + 1, textcol=c)
+        ctx.count("writes_with_a_text_curve_present")
     if not written_ok(ctx, case, las, data, nv, kw, "first-write"):
         return
     if case["seed"] % 2 == 0:
